@@ -38,7 +38,20 @@ import H3.Model.Datagram
     a uni stream is then never surfaced (the accept goes on waiting for another one), `accept_bi`
     must answer an error or `None` but never a stream; after `accept_bi` / `accept_uni` has answered a
     connection error every later accept answers an error; whether and with which code the
-    connection is closed then is C04's / C06's subject (the `closed=[…]` token may be absent). -/
+    connection is closed then is C04's / C06's subject (the `closed=[…]` token may be absent).
+
+    **Second audit (readings R-19a, finding D-19b).**  What the first bytes of a client-initiated bidi stream
+    ARE is decided by `classify` (RFC 9000 varints + RFC 9114 §7.1 framing, no model code): the 0x41 signal at
+    the very first bytes = a WebTransport stream (session id and payload offset from there); the signal behind
+    complete frames of unknown type = must be refused (the draft: H3_FRAME_ERROR) — h3 surfaces it (`#D-19b`,
+    spec alternative `?D-19b:…`, verdict `KNOWN:D-19b` when nothing else departs; in judge mode the interpreter
+    follows the implementation at this fork, `abObs`); a frame of a type HTTP/3 defines = a request
+    (`conn.ab=req:<b>` or an error, never a stream).  The CONNECT request is the FIRST bidi stream not yet handed
+    over when `conn.WT` runs (`pendingBidi` is a FIFO that `conn.A`, `conn.WT` and `accept_bi` take from).  The
+    receive side of a bidi stream the server opened is a `Peer` with `payOff = 0`: every byte is payload.
+    `open_bi` / `open_uni` wait for stream credit (`uc=` / `bc=`, `gu` / `gb`).  An accept left `pending` at the end
+    of the line is expected only if the RFC parsers find no complete header it could surface (`run`, `pendS`):
+    "surfaced once the header is there" is not taken from the model. -/
 namespace H3.Drv.C19
 open H3.Drv H3.Session
 open H3.FS (Ev)
@@ -56,6 +69,10 @@ structure Peer where
   bytes : List Nat := []
   ended : Option (Option Nat) := none
   taken : Nat := 0
+  /-- spec half: where the payload starts in `bytes` — fixed by the RFC parser when `accept_bi` surfaces
+      the stream; `some 0` for the receive side of a bidi stream the server opened itself (no header in
+      that direction); `none` = behind the two varints of the uni header -/
+  payOff : Option Nat := none
 
 /-- the send side of a stream h3 writes on -/
 structure Send where
@@ -97,6 +114,8 @@ inductive Job where
   /-- `accept_bi().await`: first `poll_accept_request_stream` (which also runs `poll_accept_recv`)
       until the transport hands over a bidi stream, then `poll_next` on that stream (`hold`) -/
   | ab (hold : Option Nat)
+  /-- `open_bi` / `open_uni` waiting for stream credit (`poll_open_bidi` / `poll_open_send` answer `Pending`) -/
+  | open_ (op : String) (sess : Nat)
 
 def Job.op : Job → String
   | .wbuf op .. => op
@@ -108,13 +127,16 @@ def Job.op : Job → String
   | .forever op => op
   | .au => "au"
   | .ab _ => "ab"
+  | .open_ op _ => op
 
 structure St where
   wtEnabled : Bool
   wc : Option Nat := none
   connect : Option Nat := none
-  lastBidi : Option Nat := none
-  accepted : Bool := false
+  /-- stream credit left for streams the server opens (`none` = unlimited; cfg `uc=` / `bc=`, peer ops `gu` / `gb`;
+      the three setup streams have taken theirs from `uc`) -/
+  uc : Option Nat := none
+  bc : Option Nat := none
   nextBidi : Nat := 1
   nextUni : Nat := 15
   peers : List Peer := []
@@ -123,9 +145,16 @@ structure St where
   uniPending : List Nat := []
   /-- `accepted_streams.wt_uni_streams` -/
   wtStack : List WtUni := []
+  /-- the peer's bidi streams the transport has not handed over yet, in the order opened: `accept()` (`conn.A`,
+      and inside `conn.WT`) and `accept_bi` each take the first -/
   pendingBidi : List Nat := []
   /-- judge mode: the streams the implementation's `accept_uni` calls surfaced, in order -/
   choices : Option (List Nat) := none
+  /-- judge mode: the answers of the implementation's `accept_bi` calls, in order; how many of them have been
+      matched so far.  Used at ONE place: where the specification allows two continuations (D-19b: an error, or
+      the recorded leniency) the judge follows the one the implementation took. -/
+  abObs : List String := []
+  abN : Nat := 0
   out : List String := []
   /-- per position the acceptable tokens (`*` = any run of characters; `?absent` = the token may be missing) -/
   spec : List (List String) := []
@@ -156,10 +185,13 @@ def parseHeader (bs : List Nat) : Option (Nat × Nat × List Nat) :=
     | none => none
   | none => none
 
-def St.log (st : St) (m s : String) : St := { st with out := st.out ++ [m], spec := st.spec ++ [[s]] }
+def St.log (st : St) (m s : String) : St :=
+  { st with out := st.out ++ [m], spec := st.spec ++ [[s]],
+            abN := if m.startsWith "conn.ab=" then st.abN + 1 else st.abN }
 def St.log1 (st : St) (m : String) : St := st.log m m
 def St.logAlt (st : St) (m : String) (alts : List String) : St :=
-  { st with out := st.out ++ [m], spec := st.spec ++ [alts] }
+  { st with out := st.out ++ [m], spec := st.spec ++ [alts],
+            abN := if m.startsWith "conn.ab=" then st.abN + 1 else st.abN }
 
 def getPeer (st : St) (id : Nat) : Option Peer := st.peers.find? (·.id == id)
 def updPeer (st : St) (id : Nat) (f : Peer → Peer) : St :=
@@ -211,7 +243,49 @@ def pumpWB : Nat → Option Nat → WB → List Nat × Option Nat × WB
 def expand (cyc : List Nat) (pos n : Nat) : List Nat :=
   (List.range n).map (fun i => cyc.getD ((pos + i) % cyc.length) 4096)
 
-def hdrPayload (p : Peer) : List Nat := ((parseHeader p.bytes).map (·.2.2)).getD []
+def hdrPayload (p : Peer) : List Nat :=
+  match p.payOff with
+  | some k => p.bytes.drop k
+  | none => ((parseHeader p.bytes).map (·.2.2)).getD []
+
+/-- what the first bytes of a client-initiated bidi stream are, by the RFC 9000 / RFC 9114 §7.1 parsers alone
+    (no model code): the WebTransport signal 0x41 + session id at the VERY FIRST bytes (`wt`: the stream is a
+    WebTransport stream, payload from offset `off`); the same behind one or more complete frames of types
+    HTTP/3 tells a receiver to ignore (`wtLate`: draft-ietf-webtrans-http3 §4.2 — "Endpoints MUST NOT send
+    WEBTRANSPORT_STREAM as a frame type on HTTP/3 streams other than the very first bytes of a request stream.
+    Receiving this frame type in any other circumstances MUST be treated as a connection error of type
+    H3_FRAME_ERROR"; reading R-03b / R-19a, finding D-19b); a frame of a type HTTP/3 defines (`other`: a
+    request, C03's subject); not decided yet. -/
+inductive BidiClass where
+  | wt (sess off : Nat)
+  | wtLate (sess off : Nat)
+  | other (ty : Nat)
+  | incomplete
+deriving Repr, DecidableEq
+
+/-- the frame types RFC 9114 (§7.2, §11.2.1 incl. the reserved HTTP/2 types) and the WebTransport draft define -/
+def knownType (t : Nat) : Bool := t ≤ 9 || t == 0x0d || t == 0x41
+
+def classify : Nat → Nat → Bool → List Nat → BidiClass
+  | 0, _, _, _ => .incomplete
+  | f+1, off, late, bs =>
+    match Varint.rfcDecode bs with
+    | none => .incomplete
+    | some (ty, r1) =>
+      if ty == 0x41 then
+        match Varint.rfcDecode r1 with
+        | none => .incomplete
+        | some (s, r2) =>
+          if late then .wtLate s (off + (bs.length - r2.length)) else .wt s (off + (bs.length - r2.length))
+      else if knownType ty then .other ty
+      else
+        match Varint.rfcDecode r1 with
+        | none => .incomplete
+        | some (len, r2) =>
+          if r2.length < len then .incomplete
+          else classify f (off + (bs.length - r2.length) + len) true (r2.drop len)
+
+def Peer.bidiClass (p : Peer) : BidiClass := classify (p.bytes.length + 1) 0 false p.bytes
 
 def endText : Option (Option Nat) → String
   | some none => "end"
@@ -277,15 +351,35 @@ def abHold (st : St) (task : String) (b : Nat) : St :=
   | some p =>
     match H3.FS.pollNext H3.FS.frameDec {} p.evs with
     | (.frame (.webTransport x), s, rest) =>
-      let st := updPeer st b (fun p => { p with rd := some (Rd.ofFS s), evs := rest })
+      -- the specification's view comes from the RFC parsers over the stream's own bytes
+      let cls := p.bidiClass
+      -- judge mode, D-19b: an implementation that refuses the late signal (what the draft demands) has raised a
+      -- connection error, H3_FRAME_ERROR; the judge follows it
+      if (match cls with | .wtLate .. => true | _ => false) && ((st.abObs.getD st.abN "").startsWith "conn.ab=err") then
+        (st.raise "H3_FRAME_ERROR" 262).log "conn.ab=err:conn:local:H3_FRAME_ERROR" "conn.ab=err:*"
+      else
+      let off : Nat := match cls with
+        | .wt _ o => o
+        | .wtLate _ o => o
+        | _ => p.bytes.length
+      let st := updPeer st b (fun p => { p with rd := some (Rd.ofFS s), evs := rest, payOff := some off })
       let st := updSend st b (fun s => { s with shown := true })
       let st := { st with tasks := st.tasks ++ [s!"w{b}"] }
-      let sp : String :=
-        match parseHeader p.bytes with
-        | some (ty, sess, _) =>
-          if ty == 0x41 then s!"conn.ab=bidi:session={sess}:stream={b}" else s!"conn.ab=!stream-{b}-has-type-{ty}"
-        | none => s!"conn.ab=!stream-{b}-has-no-complete-header"
-      st.log s!"conn.ab=bidi:session={x}:stream={b}" sp
+      match cls with
+      | .wt sess _ => st.log s!"conn.ab=bidi:session={x}:stream={b}" s!"conn.ab=bidi:session={sess}:stream={b}"
+      -- D-19b: the signal is accepted behind skipped frames of unknown type; the draft demands H3_FRAME_ERROR.  If it
+      -- is surfaced all the same (known finding), the id and the payload are those behind THAT 0x41.
+      | .wtLate sess _ =>
+        st.logAlt s!"conn.ab=bidi:session={x}:stream={b}#D-19b"
+          ["conn.ab=err:*", s!"?D-19b:conn.ab=bidi:session={sess}:stream={b}"]
+      | .other ty => st.log s!"conn.ab=bidi:session={x}:stream={b}" s!"conn.ab=!stream-{b}-starts-with-frame-type-{ty}"
+      | .incomplete => st.log s!"conn.ab=bidi:session={x}:stream={b}" s!"conn.ab=!stream-{b}-has-no-complete-header"
+    -- a request (`AcceptedBi::Request`): `accept_with_frame(HEADERS)` + `resolve()`; what the request API does
+    -- with it is C03's subject, here: it is never handed out as a WebTransport stream
+    | (.frame (.headers _), _, _) =>
+      match p.bidiClass with
+      | .other _ => st.logAlt s!"conn.ab=req:{b}" [s!"conn.ab=req:{b}", "conn.ab=err:*"]
+      | _ => st.log s!"conn.ab=req:{b}" s!"conn.ab=!stream-{b}-is-not-a-request"
     | (.pending, _, _) => block st task (.ab (some b))
     -- the stream ended before its first byte: `Ok(None)`
     | (.none, _, _) => st.logAlt "conn.ab=none" ["conn.ab=none", "conn.ab=err:*"]
@@ -322,10 +416,48 @@ def fillLoop : Nat → List Nat → Nat → Nat → Option Nat → Rd → List E
       | .more, _ => (ps, .open_, r.s, r.script, idx1, room1, calls)
       | e, _ => (ps, e, r.s, r.script, idx1, room1, calls)
 
+/-- the spec half learns that bytes were handed to a write call -/
+def handSpec (st : St) (sid : Nat) (bs : List Nat) : St :=
+  updSend st sid (fun s => if s.stopped.isSome then s else ({ s with sQueue := s.sQueue ++ bs }).pipe)
+
+/-- a `WriteBuf` (stream header, DATA frame) on its way to the transport -/
+def runWbuf (st : St) (task op : String) (sid : Nat) (w : WB) (okText : String) : St :=
+  match getSend st sid with
+  | none => st
+  | some s =>
+    match s.stopped with
+    | some c => st.log1 s!"{task}.{op}=err:rterm:{c}"
+    | none =>
+      let r := pumpWB (w.remaining + 1) s.credit w
+      let st := updSend st sid (fun s => { s with wire := s.wire ++ r.1, credit := r.2.1 })
+      if r.2.2.remaining = 0 then
+        let st := if op == "ob" || op == "ou" then { st with tasks := st.tasks ++ [s!"w{sid}"] } else st
+        st.log1 s!"{task}.{op}={okText}"
+      else block st task (.wbuf op sid r.2.2 okText)
+
 /-- let a job make progress: it completes (one trace entry) or blocks its task again -/
 def runJob (st : St) (task : String) (job : Job) : St :=
   match job with
   | .forever op => block st task (.forever op)
+  | .open_ op sess =>
+    -- `poll_open_bidi` / `poll_open_send`: `Pending` while the peer has granted no stream credit
+    if (if op == "ob" then st.bc else st.uc) == some 0 then block st task (.open_ op sess) else
+    if op == "ob" then
+      let id := st.nextBidi
+      let st := newSend { st with nextBidi := id + 4, bc := st.bc.map (· - 1) } id true
+      -- the receive side of the new stream: no header in that direction, every byte is payload
+      let st := { st with peers := st.peers ++ [{ id := id, rd := some {}, payOff := some 0 }] }
+      let st := handSpec st id (bidiHeader sess)
+      match H3.WriteBuf.fromBidiHeader sess with
+      | some w => runWbuf st task "ob" id w s!"ok:{id}"
+      | none => st.log1 "conn.ob=panic"
+    else
+      let id := st.nextUni
+      let st := newSend { st with nextUni := id + 4, uc := st.uc.map (· - 1) } id true
+      let st := handSpec st id (uniHeader sess)
+      match H3.WriteBuf.fromUniHeader (.webTransportUni sess) with
+      | some w => runWbuf st task "ou" id w s!"ok:{id}"
+      | none => st.log1 "conn.ou=panic"
   | .au =>
     if let some e := st.connErr then st.log s!"conn.au=err:{e}" "conn.au=err:*" else
     match st.localErr with
@@ -362,19 +494,7 @@ def runJob (st : St) (task : String) (job : Job) : St :=
         | none => "err:conn:local:H3_DATAGRAM_ERROR"
         | some (q, p) => if q * 4 > 2^62 - 1 then "err:conn:local:H3_DATAGRAM_ERROR" else s!"dg:{q * 4}:{toHex p}"
       (if m.2 then st.raise "H3_DATAGRAM_ERROR" 51 else st).log s!"{task}.dgr={m.1}" s!"{task}.dgr={s}"
-  | .wbuf op sid w okText =>
-    match getSend st sid with
-    | none => st
-    | some s =>
-      match s.stopped with
-      | some c => st.log1 s!"{task}.{op}=err:rterm:{c}"
-      | none =>
-        let r := pumpWB (w.remaining + 1) s.credit w
-        let st := updSend st sid (fun s => { s with wire := s.wire ++ r.1, credit := r.2.1 })
-        if r.2.2.remaining = 0 then
-          let st := if op == "ob" || op == "ou" then { st with tasks := st.tasks ++ [s!"w{sid}"] } else st
-          st.log1 s!"{task}.{op}={okText}"
-        else block st task (.wbuf op sid r.2.2 okText)
+  | .wbuf op sid w okText => runWbuf st task op sid w okText
   | .slice op sid left counts =>
     match getSend st sid with
     | none => st
@@ -483,10 +603,6 @@ def parseSizes (arg : String) : List Nat × Option Nat :=
   let sizes := if sizes.isEmpty then [4096] else sizes
   (sizes, (parts.getD 1 "").toNat?)
 
-/-- the spec half learns that bytes were handed to a write call -/
-def handSpec (st : St) (sid : Nat) (bs : List Nat) : St :=
-  updSend st sid (fun s => if s.stopped.isSome then s else ({ s with sQueue := s.sQueue ++ bs }).pipe)
-
 /-- a task starts a command -/
 def exec (st : St) (task cmd : String) : St :=
   let parts := cmd.splitOn ":"
@@ -496,35 +612,22 @@ def exec (st : St) (task cmd : String) : St :=
     match op with
     | "WT" =>
       let st := pollRecv st
-      match st.lastBidi with
-      | some c => ({ st with connect := some c, accepted := true }).log1
-          s!"conn.WT=ok:connect={c}:session={acceptedSessionId c}"
+      -- `accept()` takes the FIRST bidi stream the transport has not handed over yet: that is the CONNECT request
+      match st.pendingBidi with
+      | c :: r => ({ st with connect := some c, pendingBidi := r }).log
+          s!"conn.WT=ok:connect={c}:session={acceptedSessionId c}" s!"conn.WT=ok:connect={c}:session={c}"
       -- no request to accept: `accept()` waits (the generators always deliver the CONNECT request first)
-      | none => block st task (.forever "WT")
+      | [] => block st task (.forever "WT")
     | "sid" =>
       match st.connect with
-      | some c => st.log1 s!"conn.sid={acceptedSessionId c}"
+      | some c => st.log s!"conn.sid={acceptedSessionId c}" s!"conn.sid={c}"
       | none => st
-    | "ob" =>
-      let sess := arg.toNat?.getD (st.connect.getD 0)
-      let id := st.nextBidi
-      let st := newSend { st with nextBidi := id + 4 } id true
-      let st := handSpec st id (bidiHeader sess)
-      match H3.WriteBuf.fromBidiHeader sess with
-      | some w => runJob st task (.wbuf "ob" id w s!"ok:{id}")
-      | none => st.log1 "conn.ob=panic"
-    | "ou" =>
-      let sess := arg.toNat?.getD (st.connect.getD 0)
-      let id := st.nextUni
-      let st := newSend { st with nextUni := id + 4 } id true
-      let st := handSpec st id (uniHeader sess)
-      match H3.WriteBuf.fromUniHeader (.webTransportUni sess) with
-      | some w => runJob st task (.wbuf "ou" id w s!"ok:{id}")
-      | none => st.log1 "conn.ou=panic"
+    | "ob" => runJob st task (.open_ "ob" (arg.toNat?.getD (st.connect.getD 0)))
+    | "ou" => runJob st task (.open_ "ou" (arg.toNat?.getD (st.connect.getD 0)))
     | "ab" => runJob st task (.ab none)
     | "au" => runJob st task .au
     -- `accept()` (also inside `conn.WT`) runs `poll_control`, hence `poll_accept_recv`
-    | "A" => pollRecv st
+    | "A" => let st := pollRecv st; { st with pendingBidi := st.pendingBidi.drop 1 }
     | "dgs" =>
       if st.connErr.isSome then st.log1 "conn.dgs=err" else
       match st.connect, parseHex arg with
@@ -620,7 +723,7 @@ def step (st : St) (op : String) : St :=
       let st := if (getPeer st sid).isSome then st else { st with peers := st.peers ++ [{ id := sid }] }
       if sid % 4 == 0 then
         let st := newSend st sid false
-        (if st.accepted then { st with pendingBidi := st.pendingBidi ++ [sid] } else { st with lastBidi := some sid })
+        { st with pendingBidi := st.pendingBidi ++ [sid] }
       else if sid % 4 == 2 && sid != 2 then { st with uniPending := st.uniPending ++ [sid] }
       else st
     | none => st
@@ -654,6 +757,14 @@ def step (st : St) (op : String) : St :=
       let n := ((r.drop 1).toString).toNat?.getD 0
       kick (updSend st sid (fun s =>
         ({ s with credit := s.credit.map (· + n), sCredit := s.sCredit.map (· + n) }).pipe))
+    | none => st
+  | 'g' :: 'u' :: rest =>
+    match (String.ofList rest).toNat? with
+    | some n => kick { st with uc := st.uc.map (· + n) }
+    | none => st
+  | 'g' :: 'b' :: rest =>
+    match (String.ofList rest).toNat? with
+    | some n => kick { st with bc := st.bc.map (· + n) }
     | none => st
   | 'c' :: 'w' :: rest =>
     match numPrefix (String.ofList rest) with
@@ -694,27 +805,64 @@ def globMatch : List Char → List Char → Bool
   | c :: p, d :: t => c == d && globMatch p t
 termination_by p t => p.length + t.length
 
-/-- the observed tokens against the specification's tokens: `ok`, or the first position that is
-    not acceptable together with what was expected there -/
-def judge : Nat → List (List String) → List String → String
-  | _, [], [] => "ok"
-  | i, [], t :: _ => s!"BAD@{i}:nothing-more-expected:got:{t}"
-  | i, alts :: rest, [] =>
-    if alts.contains "?absent" then judge i rest [] else s!"BAD@{i}:missing:{"|".intercalate alts}"
-  | i, alts :: rest, t :: ts =>
-    if alts.any (fun a => a != "?absent" && globMatch a.toList t.toList) then judge (i + 1) rest ts
-    else if alts.contains "?absent" then judge i rest (t :: ts)
-    else s!"BAD@{i}:expected:{"|".intercalate alts}"
+/-- `?D-19b:<token pattern>` ↦ (`D-19b`, pattern): an answer that a listed finding explains -/
+def knownAlt (a : String) : Option (String × String) :=
+  if a.startsWith "?D-" then
+    match a.splitOn ":" with
+    | tag :: rest@(_ :: _) => some ((tag.drop 1).toString, ":".intercalate rest)
+    | _ => none
+  else none
+
+/-- the observed tokens against the specification's tokens: `ok`; or the first position that is
+    not acceptable together with what was expected there; or — when every departure is an answer the
+    specification lists as the symptom of a recorded finding (`?D-xx:<token>`) and the rest of the
+    line is as it must be — `KNOWN:<tags>` (a VIOLATION unless the finding is listed as open) -/
+def judgeK : Nat → List String → List (List String) → List String → String
+  | _, known, [], [] => if known.isEmpty then "ok" else "KNOWN:" ++ ",".intercalate known.eraseDups
+  | i, _, [], t :: _ => s!"BAD@{i}:nothing-more-expected:got:{t}"
+  | i, known, alts :: rest, [] =>
+    if alts.contains "?absent" then judgeK i known rest []
+    else s!"BAD@{i}:missing:{"|".intercalate (alts.filter (fun a => !a.startsWith "?"))}"
+  | i, known, alts :: rest, t :: ts =>
+    if alts.any (fun a => !a.startsWith "?" && globMatch a.toList t.toList) then judgeK (i + 1) known rest ts
+    else
+      match (alts.filterMap knownAlt).find? (fun (_, pat) => globMatch pat.toList t.toList) with
+      | some (tag, _) => judgeK (i + 1) (known ++ [tag]) rest ts
+      | none =>
+        if alts.contains "?absent" then judgeK i known rest (t :: ts)
+        else s!"BAD@{i}:expected:{"|".intercalate (alts.filter (fun a => !a.startsWith "?"))}"
+
+def judge (i : Nat) (spec : List (List String)) (obs : List String) : String := judgeK i [] spec obs
 
 structure Result where
   model : List String
   spec : List (List String)
 
-def run (cfg : String) (ops : List String) (choices : Option (List Nat)) : Result :=
+def run (cfg : String) (ops : List String) (choices : Option (List Nat)) (abObs : List String) : Result :=
   let enabled := (cfg.splitOn ",").contains "wt=1"
-  let st := ops.foldl step { wtEnabled := enabled, wc := cfgNat cfg "wc", choices := choices }
-  let pend := (sortBy (fun (a b : String × Job) => decide (a.1 < b.1)) st.blocked).map
-    (fun (t, j) => s!"{t}.{j.op}=pending")
+  let st := ops.foldl step { wtEnabled := enabled, wc := cfgNat cfg "wc", choices := choices, abObs := abObs,
+                             uc := (cfgNat cfg "uc").map (· - 3), bc := cfgNat cfg "bc" }
+  let blocked := sortBy (fun (a b : String × Job) => decide (a.1 < b.1)) st.blocked
+  let pend := blocked.map (fun (t, j) => s!"{t}.{j.op}=pending")
+  -- "surfaced once the header is there" is NOT left to the model: an accept may be left waiting only if the
+  -- RFC parsers find no complete WebTransport header on a stream it could surface (the scheduling of the
+  -- earlier answers is the interpreter's; what is refused here is the stall: a header that is completely
+  -- there and an accept that never answers)
+  let pendS := blocked.map (fun (t, j) =>
+    match j with
+    | .ab (some b) =>
+      match (getPeer st b).map Peer.bidiClass with
+      | some (.wt ..) => s!"conn.ab=!stream-{b}-has-a-complete-WebTransport-header"
+      | some (.wtLate ..) => s!"conn.ab=!stream-{b}-has-a-complete-WebTransport-header-behind-unknown-frames"
+      | _ => s!"{t}.{j.op}=pending"
+    | .au =>
+      if st.wtEnabled && st.connErr.isNone && st.localErr.isNone then
+        match st.peers.find? (fun p => p.id % 4 == 2 && p.rd.isNone &&
+            (match parseHeader p.bytes with | some (ty, _, _) => ty == 0x54 | none => false)) with
+        | some p => s!"conn.au=!stream-{p.id}-has-a-complete-WebTransport-header"
+        | none => s!"{t}.{j.op}=pending"
+      else s!"{t}.{j.op}=pending"
+    | _ => s!"{t}.{j.op}=pending")
   let shown := sortBy (fun (a b : Send) => decide (a.id < b.id)) (st.sends.filter (·.shown))
   let flags (s : Send) : String :=
     (if s.fin then ",fin" else "") ++
@@ -732,7 +880,7 @@ def run (cfg : String) (ops : List String) (choices : Option (List Nat)) : Resul
   let dg (l : List (List Nat)) : List String :=
     if l.isEmpty then [] else ["dgrams=[" ++ ",".intercalate (l.map toHex) ++ "]"]
   { model := st.out ++ pend ++ txM ++ closedM ++ dg st.dgTx,
-    spec := st.spec ++ (pend ++ txS).map (fun t => [t]) ++ closedS ++ (dg st.dgTxSpec).map (fun t => [t]) }
+    spec := st.spec ++ (pendS ++ txS).map (fun t => [t]) ++ closedS ++ (dg st.dgTxSpec).map (fun t => [t]) }
 
 /-- `conn.au=uni:session=<s>:stream=<u>` ↦ `u` -/
 def choiceOf (tok : String) : Option Nat :=
@@ -746,14 +894,14 @@ def untagTok (t : String) : String := (t.splitOn "#D-").headD t
 
 def handle : List String → String
   | "wt" :: _ :: cfg :: ops =>
-    let r := run cfg ops none
+    let r := run cfg ops none []
     -- the verdict of the specification on the model's own answers, the model's answers, and the
     -- demand on the implementation: its answers, judged by engine `wtj`, are `ok`
     " ".intercalate (judge 0 r.spec (r.model.map untagTok) :: r.model) ++ " ## ok **"
   | "wtj" :: _ :: cfg :: rest =>
     let ops := rest.takeWhile (· != "@@")
     let obs := (rest.dropWhile (· != "@@")).drop 1
-    let r := run cfg ops (some (obs.filterMap choiceOf))
+    let r := run cfg ops (some (obs.filterMap choiceOf)) (obs.filter (·.startsWith "conn.ab="))
     judge 0 r.spec obs
   | _ => "bad-op"
 
